@@ -9,7 +9,10 @@ def c17_family(seed, quick):
     # (the counters are harness state without branch points: they are read only after the joins)
     tls_units = [["tls 0"], ["tls 1"], ["tlstry 0"], ["tlstry 1"], ["tlsnest 0 1"], ["tlsnest 1 0"], ["tls 0", "tls 0"],
                  ["tls 0", "tls 1"]]
-    lazy_units = [["lazy 0"], ["lazy 1"], ["lazy 0", "lazy 0"], ["lazy 0", "lazy 1"], ["ld 0 rlx", "lazy 0"], ["lazy 0", "st 0 1 rlx"]]
+    lazy_units = [["lazy 0"], ["lazy 1"], ["lazy 0", "lazy 0"], ["lazy 0", "lazy 1"], ["ld 1 rlx", "lazy 0"], ["lazy 0", "st 1 1 rlx"],
+                  ["ld 0 rlx", "lazy 0"], ["ld 0 rlx", "lazy 1", "lazy 0"]]
+    # (atomic 0 counts the runs of the lazy initialisers: a thread that reads it before its first access makes loom
+    # explore the racing initialisation; the other accesses use atomic 1)
     # thread-locals: 1-3 threads, every order of accesses; counters read by main after the joins
     for n in (1, 2, 3):
         combos = list(itertools.product(range(len(tls_units)), repeat=n))
@@ -37,7 +40,11 @@ def c17_family(seed, quick):
             combos = [combos[i] for i in sorted(idx)]
         for c in combos:
             bodies = [lazy_units[i] for i in c]
-            out.append(render({"x": 1}, frame(bodies[1:], bodies[0], ["lazystat 0", "lazystat 1"])))
+            out.append(render({"x": 2}, frame(bodies[1:], bodies[0], ["lazystat 0", "lazystat 1", "ld 0 rlx"])))
+    # initialisers without a scheduling point (no atomic declared)
+    for c in ((0, 0), (0, 1), (2, 3), (0, 0, 1)):
+        bodies = [lazy_units[i] for i in c]
+        out.append(render({}, frame(bodies[1:], bodies[0], ["lazystat 0", "lazystat 1"])))
     # a thread that outlives the main closure and touches a static is reported (documented)
     out.append("cfg | T0: spawn 1; lazy 0 | T1: lazy 0")
     out.append("cfg | T0: spawn 1 | T1: lazy 0")
